@@ -61,6 +61,8 @@ def build_value(spec):
         return [object(), object()]
     if k == 'str':
         return 'bad'
+    if k == 'none':
+        return None
     if k == 'numstr':       # text NumPy converts to ONE number although len() says otherwise
         return spec['value'].encode() if spec.get('bytes') else spec['value']
     if k == 'masked':       # an ndarray subclass
@@ -230,6 +232,8 @@ def run_history(case, d, want_regen=True):
     kw = {}
     if case.get('metadata') is not None:
         kw['metadata'] = case['metadata']
+    if 0 in init.shape[1:]:
+        kw['chunklen'] = 1       # (the default chunk length divides by the size of one row)
     a = darr.asarray(path, make_layout(init, case.get('layout', 'C')),
                      accessmode=case['mode'], **kw)
     ref = init.copy()
